@@ -166,7 +166,7 @@ class Inliner:
         self.expanded: list[str] = []
 
     # ------------------------------------------------------------------ which calls
-    def _target(self, fi: FuncInfo, call: ast.Call, stack) -> FuncInfo | None:
+    def _target(self, fi: FuncInfo, call: ast.Call, stack, allow_generator: bool = False) -> FuncInfo | None:
         try:
             tg = self.prog.resolve_call(fi, call)
         except Exception:  # noqa: BLE001
@@ -191,7 +191,10 @@ class Inliner:
         a = fn.args
         if a.vararg or any(isinstance(x, ast.Starred) for x in call.args) or any(k.arg is None for k in call.keywords):
             return None
-        if any(isinstance(x, (ast.Yield, ast.YieldFrom, ast.Await)) for x in ast.walk(fn)):
+        is_gen = any(isinstance(x, (ast.Yield, ast.YieldFrom)) for x in ast.walk(fn))
+        if any(isinstance(x, ast.Await) for x in ast.walk(fn)) or (is_gen and not allow_generator):
+            return None
+        if allow_generator and not is_gen:
             return None
         n_stmts = sum(1 for x in ast.walk(fn) if isinstance(x, ast.stmt))
         if n_stmts > MAX_STMTS:
@@ -206,7 +209,16 @@ class Inliner:
         """-> (prelude statements, expression replacing the call)"""
         self.counter += 1
         prefix = f"_h{self.counter}_"
-        fn = copy.deepcopy(h.node)
+        src_node = h.node
+        if any(isinstance(x, (ast.FunctionDef, ast.Lambda)) and x is not h.node for x in ast.walk(h.node)):
+            # closures / lambdas defined inside the helper are expanded inside it first (they are only known to the
+            # program model there); what is copied into the caller then contains no call to a nested function
+            try:
+                h_in = inlined(self.prog, h, keep=self.keep, max_depth=1, desugar=True)
+                src_node = h_in.node
+            except Exception:  # noqa: BLE001
+                src_node = h.node
+        fn = copy.deepcopy(src_node)
         body = [s for s in fn.body if not (isinstance(s, ast.Expr) and isinstance(s.value, ast.Constant) and isinstance(s.value.value, str))]
         ret = "ret"
         locs = _local_names(fn) | {ret}
@@ -285,6 +297,146 @@ class Inliner:
             value = ast.copy_location(ast.Constant(value=None), call)
         return prelude, value
 
+
+    # ------------------------------------------------------------------ generator helper consumed by a for loop
+    def _expand_generator_loop(self, fi: FuncInfo, loop: ast.For, h: FuncInfo):
+        """`for T in gen(args): BODY`  ->  the generator's body with every `yield v` replaced by `T = v; BODY`
+        (parameters bound to fresh locals, locals renamed).  Only when this keeps the meaning: the loop body does
+        not break / return, uses `continue` only if each yield is the last statement of the generator's own loop
+        body, the generator does not return a value, does not yield inside try/with and the loop has no else."""
+        call = loop.iter
+        if loop.orelse:
+            raise _NotInlinable("for-else over a generator")
+
+        def level_stmts(stmts, kinds):
+            for st in stmts:
+                for x in ast.walk(st):
+                    if isinstance(x, kinds):
+                        # belongs to this level unless nested in an inner loop / function
+                        yield x
+
+        def has_at_level(stmts, kinds) -> bool:
+            def rec(sts, in_loop):
+                for st in sts:
+                    if isinstance(st, (ast.FunctionDef, ast.AsyncFunctionDef, ast.ClassDef)):
+                        continue
+                    if isinstance(st, kinds) and not (in_loop and isinstance(st, (ast.Break, ast.Continue))):
+                        return True
+                    for f in ("body", "orelse", "finalbody"):
+                        sub = getattr(st, f, None)
+                        if isinstance(sub, list) and rec(sub, in_loop or isinstance(st, (ast.For, ast.While))):
+                            return True
+                    if isinstance(st, ast.Try):
+                        for hh in st.handlers:
+                            if rec(hh.body, in_loop):
+                                return True
+                return False
+
+            return rec(stmts, False)
+
+        if has_at_level(loop.body, (ast.Break, ast.Return)):
+            raise _NotInlinable("loop body leaves the loop early")
+        body_continues = has_at_level(loop.body, (ast.Continue,))
+        self.counter += 1
+        prefix = f"_h{self.counter}_"
+        fn = copy.deepcopy(h.node)
+        gbody = [s_ for s_ in fn.body if not (isinstance(s_, ast.Expr) and isinstance(s_.value, ast.Constant) and isinstance(s_.value.value, str))]
+        for x in ast.walk(fn):
+            if isinstance(x, ast.Return) and x.value is not None:
+                raise _NotInlinable("generator returns a value")
+            if isinstance(x, ast.YieldFrom):
+                raise _NotInlinable("yield from")
+            if isinstance(x, (ast.Lambda, ast.FunctionDef, ast.AsyncFunctionDef)) and x is not fn:
+                raise _NotInlinable("nested scope in generator")
+        if _has_return(gbody):
+            raise _NotInlinable("return in generator")
+        # parameter binding (positional / keyword / defaults), as for plain helpers
+        probe = ast.Call(func=call.func, args=call.args, keywords=call.keywords)
+        a = fn.args
+        if a.vararg or a.kwarg:
+            raise _NotInlinable("variadic generator")
+        pos = [p.arg for p in [*a.posonlyargs, *a.args]]
+        binding: dict = {}
+        if h.cls is not None and not h.is_staticmethod and pos:
+            recv = call.func.value if isinstance(call.func, ast.Attribute) else None
+            if recv is None:
+                raise _NotInlinable("method called without receiver")
+            binding[pos[0]] = recv
+            pos = pos[1:]
+        if len(probe.args) > len(pos) or any(isinstance(x, ast.Starred) for x in probe.args) or any(k.arg is None for k in probe.keywords):
+            raise _NotInlinable("argument shape")
+        for p_, v_ in zip(pos, probe.args):
+            binding[p_] = v_
+        named = {p_.arg for p_ in [*a.posonlyargs, *a.args, *a.kwonlyargs]}
+        for kw in probe.keywords:
+            if kw.arg not in named:
+                raise _NotInlinable("unexpected keyword")
+            binding[kw.arg] = kw.value
+        allpos = [p_.arg for p_ in [*a.posonlyargs, *a.args]]
+        for p_, d_ in zip(allpos[len(allpos) - len(a.defaults) :], a.defaults):
+            binding.setdefault(p_, d_)
+        for p_, d_ in zip(a.kwonlyargs, a.kw_defaults):
+            if d_ is not None:
+                binding.setdefault(p_.arg, d_)
+        params = [p_.arg for p_ in [*a.posonlyargs, *a.args, *a.kwonlyargs]]
+        if any(p_ not in binding for p_ in params):
+            raise _NotInlinable("unbound parameter")
+        locs = _local_names(fn)
+        ren = _Rename(locs, prefix)
+        n_yield = 0
+
+        def repl(stmts, in_loop_tail_ok):
+            """replace `yield v` statements; in_loop_tail_ok: a yield here is the last statement of a loop body"""
+            nonlocal n_yield
+            out = []
+            for i, st in enumerate(stmts):
+                last = i == len(stmts) - 1
+                if isinstance(st, ast.Expr) and isinstance(st.value, ast.Yield):
+                    if body_continues and not (last and in_loop_tail_ok):
+                        raise _NotInlinable("continue in the loop body, yield not last in its loop")
+                    n_yield += 1
+                    val = st.value.value if st.value.value is not None else ast.Constant(value=None)
+                    out.append(ast.copy_location(ast.Assign(targets=[copy.deepcopy(loop.target)], value=ren.visit(copy.deepcopy(val))), loop))
+                    out.extend(copy.deepcopy(loop.body))
+                    continue
+                if any(isinstance(x, ast.Yield) for x in ast.walk(st)):
+                    if isinstance(st, (ast.For, ast.While)):
+                        new = copy.copy(st)
+                        new.body = repl(st.body, True)
+                        if any(isinstance(x, ast.Yield) for o in st.orelse for x in ast.walk(o)):
+                            raise _NotInlinable("yield in loop else")
+                        new = _rename_header(new, ren)
+                        out.append(new)
+                        continue
+                    if isinstance(st, ast.If):
+                        new = copy.copy(st)
+                        new.test = ren.visit(copy.deepcopy(st.test))
+                        new.body = repl(st.body, in_loop_tail_ok and last)
+                        new.orelse = repl(st.orelse, in_loop_tail_ok and last)
+                        out.append(new)
+                        continue
+                    raise _NotInlinable("yield inside try / with / expression")
+                out.append(ren.visit(copy.deepcopy(st)))
+            return out
+
+        def _rename_header(loop_st, ren_):
+            if isinstance(loop_st, ast.For):
+                loop_st.target = ren_.visit(copy.deepcopy(loop_st.target))
+                loop_st.iter = ren_.visit(copy.deepcopy(loop_st.iter))
+            else:
+                loop_st.test = ren_.visit(copy.deepcopy(loop_st.test))
+            loop_st.orelse = [ren_.visit(copy.deepcopy(o)) for o in loop_st.orelse]
+            return loop_st
+
+        new_body = repl(gbody, False)
+        if n_yield == 0:
+            raise _NotInlinable("no plain yield statement")
+        prelude = []
+        for p_ in params:
+            prelude.append(ast.copy_location(ast.Assign(targets=[ast.Name(id=prefix + p_, ctx=ast.Store())], value=copy.deepcopy(binding[p_])), loop))
+        self.expanded.append(h.qualname)
+        return prelude + new_body
+
     # ------------------------------------------------------------------ statements
     def _calls_of(self, exprs) -> list:
         out = []
@@ -332,6 +484,16 @@ class Inliner:
                 out.append(s)
                 continue
             s = copy.copy(s)
+            if isinstance(s, ast.For) and isinstance(s.iter, ast.Call):
+                hg = self._target(fi, s.iter, stack, allow_generator=True)
+                if hg is not None:
+                    try:
+                        expanded_loop = self._expand_generator_loop(fi, s, hg)
+                    except _NotInlinable:
+                        expanded_loop = None
+                    if expanded_loop is not None:
+                        out.extend(self._block(fi, expanded_loop, stack + [hg], depth))
+                        continue
             for f in ("body", "orelse", "finalbody"):
                 if isinstance(getattr(s, f, None), list) and not isinstance(s, (ast.FunctionDef, ast.AsyncFunctionDef, ast.ClassDef)):
                     setattr(s, f, self._block(fi, getattr(s, f), stack, depth))
@@ -413,6 +575,11 @@ def desugar_comprehensions(stmts: list) -> list:
                 h.body = desugar_comprehensions(h.body)
                 hs.append(h)
             s.handlers = hs
+        ret_form = None
+        if isinstance(s, ast.Return) and isinstance(s.value, (ast.DictComp, ast.ListComp)) and all(not g.is_async for g in s.value.generators):
+            # `return {…}`  ->  `_comp_ret = {…}; return _comp_ret`
+            ret_form = s
+            s = ast.copy_location(ast.Assign(targets=[ast.Name(id="_comp_ret", ctx=ast.Store())], value=s.value), s)
         if isinstance(s, ast.Assign) and len(s.targets) == 1 and isinstance(s.targets[0], ast.Name) and isinstance(s.value, (ast.DictComp, ast.ListComp)) and all(not g.is_async for g in s.value.generators):
             name = s.targets[0].id
             comp = s.value
@@ -429,9 +596,222 @@ def desugar_comprehensions(stmts: list) -> list:
                 body = [ast.copy_location(ast.For(target=g.target, iter=g.iter, body=body, orelse=[]), s)]
             out.append(ast.copy_location(init, s))
             out.extend(body)
+            if ret_form is not None:
+                out.append(ast.copy_location(ast.Return(value=ast.Name(id="_comp_ret", ctx=ast.Load())), ret_form))
             continue
         out.append(s)
     return out
+
+
+# ----------------------------------------------------------------------------- callable aliases
+
+
+def _single_defs(fn: ast.AST) -> dict:
+    """local name -> its only definition (plain `name = value` assignments, no other binding of the name)"""
+    count: dict = {}
+    value: dict = {}
+    for x in ast.walk(fn):
+        if isinstance(x, (ast.FunctionDef, ast.AsyncFunctionDef, ast.Lambda)) and x is not fn:
+            if isinstance(x, (ast.FunctionDef, ast.AsyncFunctionDef)):
+                count[x.name] = count.get(x.name, 0) + 2
+            continue
+        if isinstance(x, ast.Name) and isinstance(x.ctx, (ast.Store, ast.Del)):
+            count[x.id] = count.get(x.id, 0) + 1
+        elif isinstance(x, ast.arg):
+            count[x.arg] = count.get(x.arg, 0) + 2
+        if isinstance(x, ast.Assign) and len(x.targets) == 1 and isinstance(x.targets[0], ast.Name):
+            value[x.targets[0].id] = x.value
+    return {k: v for k, v in value.items() if count.get(k) == 1}
+
+
+def desugar_callable_aliases(fn: ast.FunctionDef) -> ast.FunctionDef:
+    """calls through a local that is bound once to a bound method (`recv = COMM.recv`), a `functools.partial(...)` or
+    a lambda are rewritten to the call they stand for, so that rules see the real callee with all its arguments:
+        send = partial(COMM.send, dest=w, tag=1); send(x)      ->  COMM.send(x, dest=w, tag=1)
+        load = lambda name: source[name][:];      load("ra")   ->  source["ra"][:]
+    Returns fn itself when nothing changes (a copy otherwise)."""
+    defs = _single_defs(fn)
+    if not defs:
+        return fn
+
+    def target_of(name: str, depth: int = 0):
+        v = defs.get(name)
+        if v is None or depth > 4:
+            return None
+        if isinstance(v, ast.Name):
+            return target_of(v.id, depth + 1) or (("ref", v) if v.id not in defs else None)
+        if isinstance(v, ast.Attribute):
+            # a bound method / function reference; its receiver must not be rebound in between — required: receiver root
+            # is a parameter, `self`, a module-level name or a single-definition local
+            return ("ref", v)
+        if isinstance(v, ast.Call) and (ast.unparse(v.func).split(".")[-1] == "partial") and v.args and not any(isinstance(a, ast.Starred) for a in v.args) and not any(k.arg is None for k in v.keywords):
+            return ("partial", v)
+        if isinstance(v, ast.Lambda):
+            a = v.args
+            if not (a.vararg or a.kwarg or a.kwonlyargs or a.posonlyargs):
+                return ("lambda", v)
+        return None
+
+    changed = False
+
+    class T(ast.NodeTransformer):
+        def visit_Lambda(self, n):
+            return n
+
+        def visit_Call(self, n):
+            nonlocal changed
+            n = self.generic_visit(n)
+            if not isinstance(n.func, ast.Name):
+                return n
+            tg = target_of(n.func.id)
+            if tg is None:
+                return n
+            kind, v = tg
+            if kind == "ref":
+                if isinstance(v, ast.Name):
+                    return n
+                changed = True
+                new = copy.copy(n)
+                new.func = copy.deepcopy(v)
+                return new
+            if kind == "partial":
+                inner_f = v.args[0]
+                if isinstance(inner_f, ast.Name):
+                    t2 = target_of(inner_f.id)
+                    if t2 is not None and t2[0] == "ref" and not isinstance(t2[1], ast.Name):
+                        inner_f = t2[1]
+                given = {k.arg for k in n.keywords if k.arg}
+                changed = True
+                new = copy.copy(n)
+                new.func = copy.deepcopy(inner_f)
+                new.args = [copy.deepcopy(a) for a in v.args[1:]] + list(n.args)
+                new.keywords = list(n.keywords) + [copy.deepcopy(k) for k in v.keywords if k.arg not in given]
+                return new
+            if kind == "lambda":
+                a = v.args
+                names = [p.arg for p in a.args]
+                if any(isinstance(x, ast.Starred) for x in n.args) or any(k.arg is None for k in n.keywords) or len(n.args) > len(names):
+                    return n
+                bind = dict(zip(names, n.args))
+                for k in n.keywords:
+                    if k.arg not in names or k.arg in bind:
+                        return n
+                    bind[k.arg] = k.value
+                for p_, d_ in zip(names[len(names) - len(a.defaults) :], a.defaults):
+                    bind.setdefault(p_, d_)
+                if any(p_ not in bind for p_ in names):
+                    return n
+                # arguments with calls would be evaluated as often as the parameter occurs: only simple arguments
+                uses = {p_: sum(1 for y in ast.walk(v.body) if isinstance(y, ast.Name) and y.id == p_) for p_ in names}
+                if any(uses[p_] > 1 and any(isinstance(y, ast.Call) for y in ast.walk(bind[p_])) for p_ in names):
+                    return n
+
+                class S(ast.NodeTransformer):
+                    def visit_Name(self, m):
+                        if isinstance(m.ctx, ast.Load) and m.id in bind:
+                            return copy.deepcopy(bind[m.id])
+                        return m
+
+                changed = True
+                return ast.copy_location(S().visit(copy.deepcopy(v.body)), n)
+            return n
+
+    new_fn = copy.copy(fn)
+    new_body = []
+    for st in fn.body:
+        if isinstance(st, (ast.FunctionDef, ast.AsyncFunctionDef, ast.ClassDef)):
+            new_body.append(st)
+        else:
+            new_body.append(T().visit(copy.deepcopy(st)) if _mentions_call_of(st, defs) else st)
+    if not changed:
+        return fn
+    new_fn.body = new_body
+    # an alias whose calls were all rewritten is dead: its definition would only keep a spurious use of its arguments
+    loads = {x.id for x in ast.walk(new_fn) if isinstance(x, ast.Name) and isinstance(x.ctx, ast.Load)}
+    dead = {k for k, v in defs.items() if k not in loads and target_of(k) is not None and target_of(k)[0] in ("partial", "lambda", "ref")}
+    if dead:
+
+        class D(ast.NodeTransformer):
+            def visit_FunctionDef(self, n):
+                return n if n is not new_fn else self.generic_visit(n)
+
+            def visit_Assign(self, n):
+                if len(n.targets) == 1 and isinstance(n.targets[0], ast.Name) and n.targets[0].id in dead:
+                    return ast.copy_location(ast.Pass(), n)
+                return n
+
+        new_fn = D().visit(new_fn)
+    ast.fix_missing_locations(new_fn)
+    return new_fn
+
+
+def _mentions_call_of(st: ast.AST, defs: dict) -> bool:
+    return any(isinstance(x, ast.Call) and isinstance(x.func, ast.Name) and x.func.id in defs for x in ast.walk(st))
+
+
+# ----------------------------------------------------------------------------- copy propagation
+
+
+def propagate_copies(fn: ast.FunctionDef, only_prefix: str = "_h") -> ast.FunctionDef:
+    """reads of a local that is bound once to a plain name or attribute chain (`_h1_self = self`,
+    `_h3_data = self._hdu_data`) are replaced by that name / chain; the bindings that the expansion of helpers
+    introduces (prefix `_h<N>_`) then disappear from the expressions a rule looks at.  Only bindings whose source
+    is itself stable in the function (a parameter or local bound once, an attribute that is not stored here)."""
+    defs = _single_defs(fn)
+    stored_attrs = {x.attr for x in ast.walk(fn) if isinstance(x, ast.Attribute) and isinstance(x.ctx, (ast.Store, ast.Del))}
+    counts: dict = {}
+    for x in ast.walk(fn):
+        if isinstance(x, ast.Name) and isinstance(x.ctx, (ast.Store, ast.Del)):
+            counts[x.id] = counts.get(x.id, 0) + 1
+    a = fn.args
+    params = {p_.arg for p_ in [*a.posonlyargs, *a.args, *a.kwonlyargs]} | ({a.vararg.arg} if a.vararg else set()) | ({a.kwarg.arg} if a.kwarg else set())
+
+    def stable(e) -> bool:
+        if isinstance(e, ast.Name):
+            # never stored here (parameter, global) or stored exactly once (plain, tuple-unpacking or loop target)
+            return counts.get(e.id, 0) == 0 or (counts.get(e.id) == 1 and e.id not in params)
+        if isinstance(e, ast.Attribute):
+            return e.attr not in stored_attrs and stable(e.value)
+        return False
+
+    nested_loads = set()
+    for x in ast.walk(fn):
+        if isinstance(x, (ast.FunctionDef, ast.AsyncFunctionDef, ast.Lambda)) and x is not fn:
+            nested_loads |= {y.id for y in ast.walk(x) if isinstance(y, ast.Name)}
+    sub = {k: v for k, v in defs.items() if k.startswith(only_prefix) and isinstance(v, (ast.Name, ast.Attribute)) and stable(v) and k not in params and k not in nested_loads}
+    if not sub:
+        return fn
+
+    def resolve(e, depth=0):
+        if depth > 6:
+            return e
+        if isinstance(e, ast.Name) and e.id in sub:
+            return resolve(copy.deepcopy(sub[e.id]), depth + 1)
+        if isinstance(e, ast.Attribute):
+            new = copy.copy(e)
+            new.value = resolve(e.value, depth + 1)
+            return new
+        return e
+
+    class T(ast.NodeTransformer):
+        def visit_Name(self, n):
+            if isinstance(n.ctx, ast.Load) and n.id in sub:
+                r = resolve(n)
+                return ast.copy_location(r, n)
+            return n
+
+    new_fn = copy.copy(fn)
+    new_fn.body = [st if isinstance(st, (ast.FunctionDef, ast.AsyncFunctionDef, ast.ClassDef)) else T().visit(copy.deepcopy(st)) for st in fn.body]
+
+    class D(ast.NodeTransformer):
+        def visit_Assign(self, n):
+            if len(n.targets) == 1 and isinstance(n.targets[0], ast.Name) and n.targets[0].id in sub:
+                return ast.copy_location(ast.Pass(), n)
+            return n
+
+    new_fn.body = [st if isinstance(st, (ast.FunctionDef, ast.AsyncFunctionDef, ast.ClassDef)) else D().visit(st) for st in new_fn.body]
+    ast.fix_missing_locations(new_fn)
+    return new_fn
 
 
 _CACHE: dict = {}
@@ -451,6 +831,16 @@ def inlined(prog: Program, fi: FuncInfo, *, keep=(), only=None, max_depth: int =
         cur.origin = fi  # type: ignore[attr-defined]
     expanded: list[str] = []
     counter = 0
+
+    def _aliases(c: FuncInfo) -> FuncInfo:
+        node2 = desugar_callable_aliases(c.node)
+        if node2 is c.node:
+            return c
+        c2 = FuncInfo(fi.module, fi.qualname, node2, fi.cls, fi.variant, fi.parent)
+        c2.origin = fi  # type: ignore[attr-defined]
+        return c2
+
+    cur = _aliases(cur)
     for _ in range(max_depth):
         inl = Inliner(prog, set(keep) | {fi.name}, only, max_depth, counter)
         try:
@@ -464,9 +854,63 @@ def inlined(prog: Program, fi: FuncInfo, *, keep=(), only=None, max_depth: int =
         node = copy.copy(cur.node)
         node.body = body
         ast.fix_missing_locations(node)
+        if desugar and any(isinstance(x, (ast.DictComp, ast.ListComp)) for x in ast.walk(node)):
+            node.body = desugar_comprehensions(list(node.body))  # comprehensions that came in with a helper's body
+            ast.fix_missing_locations(node)
         cur = FuncInfo(fi.module, fi.qualname, node, fi.cls, fi.variant, fi.parent)
+        cur.origin = fi  # type: ignore[attr-defined]
+        cur = _aliases(cur)
     if cur is not fi:
+        if expanded:
+            node2 = propagate_copies(cur.node)
+            if node2 is not cur.node:
+                cur = FuncInfo(fi.module, fi.qualname, node2, fi.cls, fi.variant, fi.parent)
         cur.inlined_helpers = expanded  # type: ignore[attr-defined]
         cur.origin = fi  # type: ignore[attr-defined]
     _CACHE[key] = cur
     return cur
+
+
+_ALL: dict = {}
+
+
+def all_inlined(prog: Program, *, keep=(), drop: str = "expanded", variants=None) -> list[FuncInfo]:
+    """every top-level function / method of the package with its same-module helper calls expanded in place, for
+    rules that look for *where an effect happens* (a file is written, a message is sent): an effect that was moved
+    into a helper is then seen in the context of each caller.  A function that was expanded at every call site that
+    is left in the package is not listed on its own (drop="expanded"; drop="private": only underscore-named ones;
+    drop="none": keep all)."""
+    key = (id(prog), tuple(sorted(keep)), drop, tuple(variants) if variants else None)
+    if key in _ALL:
+        return _ALL[key]
+    funcs = [f for f in prog.funcs if f.parent is None and (variants is None or f.variant in variants)]
+    out = []
+    expanded: set[str] = set()
+    for f in funcs:
+        try:
+            g = inlined(prog, f, keep=keep)
+        except Exception:  # noqa: BLE001 - unusual helper shape: keep the function as written
+            g = f
+        expanded |= set(getattr(g, "inlined_helpers", []))
+        out.append(g)
+    if drop != "none":
+        # helpers still called somewhere (not expanded there) stay listed
+        still_called: set[str] = set()
+        for g in out:
+            for c in (x for x in ast.walk(g.node) if isinstance(x, ast.Call)):
+                try:
+                    for t in prog.resolve_call(g, c).funcs():
+                        still_called.add(t.qualname)
+                except Exception:  # noqa: BLE001
+                    pass
+        kept = []
+        for g in out:
+            private = g.name.startswith("_") and not g.name.startswith("__")
+            if g.qualname in expanded and g.name not in keep and (private or (drop == "expanded" and g.qualname not in still_called)):
+                if drop == "private" and not private:
+                    kept.append(g)
+                continue
+            kept.append(g)
+        out = kept
+    _ALL[key] = out
+    return out
